@@ -157,6 +157,11 @@ func (r *ledgerRun) hostileBurst(users, everyone []types.Address, tok types.Zeno
 		if k > 0 && c.R.Intn(3) == 0 {
 			tok = []types.ZenonTokenStandard{types.ZnnTokenStandard, types.QsrTokenStandard}[c.R.Intn(2)]
 		}
+		if c.R.Intn(5) == 0 && to != types.TokenContract {
+			// a data-only send: no token standard at all — the amount rules still apply (it must be exactly zero)
+			tok = types.ZeroTokenStandard
+			c.Hit("hostile-zero-token-standard")
+		}
 		bal, _ := n.Chain().GetFrontierAccountStore(from).GetBalance(tok)
 		if bal == nil {
 			bal = new(big.Int)
